@@ -1022,11 +1022,38 @@ pub fn gen(rng: &mut Rng, bias: Bias) -> Script {
                     continue;
                 }
                 let h = *rng.pick(&live_handles);
-                let d = match rng.below(6) {
-                    0 => 0,
-                    1 => rng.range(1, 5),
-                    2 => rng.range(50, 300),
-                    _ => rng.range(5, 60),
+                const DAY: u64 = 86_400_000;
+                let big = match bias {
+                    Bias::Deadline => rng.chance(1, 5),
+                    Bias::General | Bias::Reclaim => rng.chance(1, 16),
+                    _ => false,
+                };
+                let d = if big {
+                    // far deadlines: around 2^32 ms (49.7 days), weeks, months, around the 365-day clamp
+                    let (r1, r2, r3) = (rng.range(2, 5000), rng.range(0, 3), rng.range(0, 999));
+                    *rng.pick(&[
+                        (1u64 << 32) - 1,
+                        1u64 << 32,
+                        (1u64 << 32) + 1,
+                        (1u64 << 32) + r1,
+                        (1u64 << 31) + r2,
+                        7 * DAY,
+                        40 * DAY,
+                        50 * DAY,
+                        100 * DAY + r3,
+                        364 * DAY,
+                        365 * DAY - 1,
+                        365 * DAY,
+                        365 * DAY + 1,
+                        3 * 365 * DAY,
+                    ])
+                } else {
+                    match rng.below(6) {
+                        0 => 0,
+                        1 => rng.range(1, 5),
+                        2 => rng.range(50, 300),
+                        _ => rng.range(5, 60),
+                    }
                 };
                 ops.push(Op::Call { h, d, tid: rng.range(1, 9) * 11, sampled: rng.chance(1, 2), body: rng.range(1, 99) });
                 open_calls.push(ncalls);
@@ -1106,17 +1133,32 @@ pub fn gen(rng: &mut Rng, bias: Bias) -> Script {
             5 => {
                 // clock: to just before / exactly at / just after some deadline, or a plain step
                 let dt = if !deadlines.is_empty() && rng.chance(2, 3) {
-                    let d = *rng.pick(&deadlines);
-                    let target = match rng.below(3) {
-                        0 => d.saturating_sub(1),
-                        1 => d,
-                        _ => d + 1,
+                    // the latest call's deadline half of the time (far deadlines would otherwise rarely be reached)
+                    let d = if rng.chance(1, 2) { *deadlines.last().unwrap() } else { *rng.pick(&deadlines) };
+                    let target = if d > now + (1u64 << 31) && rng.chance(1, 2) {
+                        // a far deadline: also the instants at which a timer armed modulo 2^32 / 2^31 ms, or for
+                        // half / a 1000th of the time, would fire
+                        let rem = d - now;
+                        now + match rng.below(5) {
+                            0 => (rem & 0xFFFF_FFFF) + rng.range(0, 2),
+                            1 => (rem & 0x7FFF_FFFF) + rng.range(0, 2),
+                            2 => rem / 2,
+                            3 => rem / 1000 + 1,
+                            _ => rem - rng.range(1, 1000),
+                        }
+                    } else {
+                        match rng.below(3) {
+                            0 => d.saturating_sub(1),
+                            1 => d,
+                            _ => d + 1,
+                        }
                     };
                     target.saturating_sub(now)
                 } else {
                     rng.range(1, 40)
                 };
-                if dt > 0 {
+                // the DelayQueue's range: now + 365 days (the clamp) must stay below 2^36 ms
+                if dt > 0 && now + dt < 400 * 86_400_000 {
                     now += dt;
                     ops.push(Op::Adv(dt));
                 }
@@ -1202,6 +1244,28 @@ pub fn gen(rng: &mut Rng, bias: Bias) -> Script {
         }
     }
     Script { cfg, ops }
+}
+
+/// Volume family (thorough tier, and the search for a failing input after a broken tie): counts far
+/// beyond what generated scripts reach, against queues that the model takes to be unbounded.
+/// One call is transmitted; then `n` calls are created, polled once (an id is drawn, the request
+/// waits for buffer space) and abandoned while the dispatch is never polled, so `n` stale ids pile up
+/// in the cancellation queue; then the transmitted call is abandoned and the dispatch runs: its
+/// Cancel must still reach the wire.
+pub fn volume(mut f: impl FnMut(Script)) {
+    for (n, q) in [(1100usize, 1usize), (1030, 2)] {
+        let mut ops = vec![Op::Call { h: 0, d: 100_000, tid: 11, sampled: false, body: 7 }, Op::PollCall(0), Op::PollD];
+        for i in 1..=n {
+            ops.push(Op::Call { h: 0, d: 100_000, tid: 22, sampled: false, body: (i % 90 + 1) as u64 });
+            ops.push(Op::PollCall(i));
+            ops.push(Op::DropCall(i));
+        }
+        ops.push(Op::DropCall(0));
+        ops.push(Op::PollD);
+        ops.push(Op::PollD);
+        ops.push(Op::PollD);
+        f(Script { cfg: Cfg { qcap: q, maxif: 2, cap: 0, coupled: false }, ops });
+    }
 }
 
 /// Bounded-exhaustive family (thorough tier): two calls, then every sequence of `len` ops over
